@@ -4,8 +4,8 @@ PROPS = {
     "C01": {
         "title": "civil calendar and day count agree for every date 0001-9999",
         "mc": {
-            "quick": [{"module": "MC_Civil", "cfg": "MC_Civil_quick.cfg", "workers": 1}],
-            "thorough": [{"module": "MC_Civil", "cfg": "MC_Civil.cfg", "workers": 1, "timeout": 3000}],
+            "quick": [{"module": "MC_Civil", "cfg": "MC_Civil_quick.cfg", "workers": 1}, {"module": "MC_Meeus", "cfg": "MC_Meeus_quick.cfg", "workers": 1}],
+            "thorough": [{"module": "MC_Civil", "cfg": "MC_Civil.cfg", "workers": 1, "timeout": 3000}, {"module": "MC_Meeus", "cfg": "MC_Meeus.cfg", "workers": 1, "timeout": 3000}],
         },
         "rule": "day walks by SolarDay::next(1) over the boundary catalogue + seeded random windows (quick) or all 3,652,061 days (thorough); "
                 "acceptance of every day 0..32 of every month 0..13 of sampled (quick) / all (thorough) years -1..10001; seeded next(n) and pair events. "
@@ -34,9 +34,11 @@ PROPS = {
     "C03": {
         "title": "lunar months tile time: 29/30 days, 12/13 per year, no gaps or overlaps",
         "mc": {"quick": [{"module": "MC_MonthClock", "cfg": "MC_MonthClock.cfg", "workers": 4},
-                         {"module": "MC_MonthStep", "cfg": "MC_MonthStep.cfg", "workers": 4}],
+                         {"module": "MC_MonthStep", "cfg": "MC_MonthStep.cfg", "workers": 4},
+                         {"module": "MC_YearAnchor", "cfg": "MC_YearAnchor.cfg", "workers": 4}],
                "thorough": [{"module": "MC_MonthClock", "cfg": "MC_MonthClock.cfg", "workers": 4},
-                            {"module": "MC_MonthStep", "cfg": "MC_MonthStep_big.cfg", "workers": 6, "heap": "8g"}]},
+                            {"module": "MC_MonthStep", "cfg": "MC_MonthStep_big.cfg", "workers": 6, "heap": "8g"},
+                            {"module": "MC_YearAnchor", "cfg": "MC_YearAnchor.cfg", "workers": 4}]},
         "rule": "month walks by LunarMonth::next(1) over years 0-30, 230-245, 1640-1650, 1955-1965, 7990-8010, 9988-9999 + 40 seeded decades (quick) or all years 0..9999 (thorough); "
                 "each lunation also through from_ym, the uncached constructor, next(0), next(-1), next(n) for 12 step counts; one record per lunar year. "
                 "Non-trivial: leap months and their twins, first/last months of a year, leap years",
@@ -59,7 +61,8 @@ PROPS = {
     },
     "C05": {
         "title": "solar terms and new moons sit at the true Sun/Moon longitudes (integer-projected clauses)",
-        "mc": {"quick": [{"module": "MC_MidnightGuard", "cfg": "MC_MidnightGuard.cfg", "workers": 2}, {"module": "MC_MidnightGuard", "cfg": "MC_MidnightGuardMoon.cfg", "workers": 2}]},
+        "mc": {"quick": [{"module": "MC_MidnightGuard", "cfg": "MC_MidnightGuard.cfg", "workers": 2}, {"module": "MC_MidnightGuard", "cfg": "MC_MidnightGuardMoon.cfg", "workers": 2},
+                         {"module": "MC_YearAnchor", "cfg": "MC_YearAnchor.cfg", "workers": 4}]},
         "rule": "all 24 terms and all lunations of sampled years (quick: every 5th year of 1900..2150, regime edges, 90 seeded years; thorough: every year 1..9999); the inverse solvers on a raw grid of target longitudes over +-10,000 years; TT-UT at every integer year -4000..10000; the closed-form low-precision instants of 1645..1959. "
                 "Non-trivial: events within 30 min of midnight (the day depends on the fall-back), events inside the independent-theory window 1900..2150, TT-UT segment joins",
         "exhaustive": {"quick": False, "thorough": True},
@@ -95,7 +98,7 @@ PROPS = {
     },
     "C08": {
         "title": "year pillar turns at Lichun, month pillar at each Jie, by the Five-Tigers rule",
-        "mc": {"quick": [{"module": "MC_Pillars", "cfg": "MC_Pillars.cfg", "workers": 2}]},
+        "mc": {"quick": [{"module": "MC_Pillars", "cfg": "MC_Pillars.cfg", "workers": 2}, {"module": "MC_YearTurn", "cfg": "MC_YearTurn.cfg", "workers": 2}]},
         "rule": "civil day walks (catalogue + 40 seeded windows; thorough every date 0001..9998) logging year/month pillar of the sexagenary-day view with the governing term and the Lichun day; "
                 "instants one second before/at/after every Jie instant of sampled (quick) / all (thorough) years plus a random instant per Jie, with the day-level pillars of the same day; every sexagenary month and year of those years. "
                 "Non-trivial: Jie days, Lichun and the day before, last days of a Qi, boundary instants, first/last month of a sexagenary year",
@@ -207,8 +210,8 @@ PROPS = {
     },
     "C16": {
         "title": "child limit and fortunes follow from birth instant, gender and the next Jie",
-        "mc": {"quick": [{"module": "MC_Fortune", "cfg": "MC_Fortune.cfg", "workers": 4}]},
-        "rule": "1,500 (quick) / 60,000 (thorough) seeded birth instants 0002..9987 x gender (a sixth within 3 s of a Jie, a sixth on the first/last day of a month, a sixth in 1571..1583 so that limits end around October 1582), each through ChildLimit (direction, counts, end, 12 decade and 20 yearly fortunes) and through the three other shipped strategies' get_info. "
+        "mc": {"quick": [{"module": "MC_Fortune", "cfg": "MC_Fortune.cfg", "workers": 4}, {"module": "MC_YearTurn", "cfg": "MC_YearTurn.cfg", "workers": 2}]},
+        "rule": "9,000 (quick) / 60,000 (thorough) seeded birth instants 0002..9987 x gender (a sixth within 3 s of a Jie and on both sides of it, a sixth on the first/last day of a month, a sixth in 1571..1583 so that limits end around October 1582, a sixth within six days of the Lichun instant of a random year), each through ChildLimit (direction, counts, end, 12 decade and 20 yearly fortunes) and through the three other shipped strategies' get_info. "
                 "Non-trivial: births on month ends or first days, limits that are zero or spill into another month",
         "exhaustive": {"quick": False, "thorough": False},
         "assumptions": ["Jie instants are those of the term objects (C06); the year/month/hour pillars of the birth are the implementation's (C08, C09)",
